@@ -97,16 +97,46 @@ def run_allcols(ctx, col, class_quals, rule="R-ALLCOLS"):
             col.unresolved(rule, det.qualname, det.loc(), "the detached copy has all columns", "no DictSWC(...) call reached from detach", stmt="allcols")
             continue
 
-        def over_keys(e, fn_node):
-            if isinstance(e, ast.Name):
+        def over_keys(e, fn_node, depth=0):
+            """the columns are gathered over `<x>.keys()`: a comprehension, or a dict that a loop over keys() fills"""
+            if isinstance(e, ast.Name) and depth < 3:
                 for st in ast.walk(fn_node):
-                    if isinstance(st, ast.Assign) and len(st.targets) == 1 and isinstance(st.targets[0], ast.Name) and st.targets[0].id == e.id:
-                        return over_keys(st.value, fn_node)
+                    if isinstance(st, (ast.Assign, ast.AnnAssign)) and st.value is not None:
+                        tg = st.targets if isinstance(st, ast.Assign) else [st.target]
+                        if len(tg) == 1 and isinstance(tg[0], ast.Name) and tg[0].id == e.id and over_keys(st.value, fn_node, depth + 1):
+                            return True
+                for lp in ast.walk(fn_node):
+                    if isinstance(lp, ast.For) and isinstance(lp.iter, ast.Call) and isinstance(lp.iter.func, ast.Attribute) and lp.iter.func.attr == "keys" and isinstance(lp.target, ast.Name):
+                        for st in ast.walk(lp):
+                            if isinstance(st, ast.Assign) and any(isinstance(t, ast.Subscript) and isinstance(t.value, ast.Name) and t.value.id == e.id and isinstance(t.slice, ast.Name)
+                                                                  and t.slice.id == lp.target.id for t in st.targets):
+                                return True
                 return False
-            return isinstance(e, ast.DictComp) and e.generators and isinstance(e.generators[0].iter, ast.Call) and isinstance(e.generators[0].iter.func, ast.Attribute) \
+            return isinstance(e, ast.DictComp) and bool(e.generators) and isinstance(e.generators[0].iter, ast.Call) and isinstance(e.generators[0].iter.func, ast.Attribute) \
                 and e.generators[0].iter.func.attr == "keys"
+
+        def fixed_columns(e, fn_node):
+            """the columns are a literal, closed set: a dict display, or a name bound to one"""
+            if isinstance(e, ast.Dict):
+                return all(k is not None for k in e.keys)
+            if isinstance(e, ast.Name):
+                vals = [st.value for st in ast.walk(fn_node) if isinstance(st, (ast.Assign, ast.AnnAssign)) and st.value is not None
+                        and any(isinstance(t, ast.Name) and t.id == e.id for t in (st.targets if isinstance(st, ast.Assign) else [st.target]))]
+                return len(vals) == 1 and isinstance(vals[0], ast.Dict) and all(k is not None for k in vals[0].keys) and not any(
+                    isinstance(s_, ast.Assign) and any(isinstance(t, ast.Subscript) and isinstance(t.value, ast.Name) and t.value.id == e.id for t in s_.targets) and s_.lineno > vals[0].lineno
+                    and any(isinstance(p_, ast.For) and any(x is s_ for x in ast.walk(p_)) for p_ in ast.walk(fn_node)) for s_ in ast.walk(fn_node))
+            return False
         good = [(m, c) for m, c in calls if any(k.arg is None and over_keys(k.value, m.node) for k in c.keywords)]
-        m, c = (good or calls)[0]
-        col.check(bool(good), rule, det.qualname, m.loc(c), "the detached copy has all columns", norm_src(c)[:80],
-                  f"`{norm_src(c)[:90]}` (reached from {C.name}.detach) builds the detached table from a fixed set of columns, not from `self.keys()`: per-node columns beyond the seven "
-                  f"standard ones (eswc fields, labels) are missing from the detached copy", stmt="allcols", definite=True)
+        closed = [(m, c) for m, c in calls if (any(k.arg is None for k in c.keywords) and all(fixed_columns(k.value, m.node) for k in c.keywords if k.arg is None))
+                  or (not any(k.arg is None for k in c.keywords) and any(k.arg in ("x", "y", "z", "id", "pid") for k in c.keywords))]
+        if good:
+            m, c = good[0]
+            col.ok(rule, det.qualname, m.loc(c), "the detached copy has all columns", norm_src(c)[:80], stmt="allcols")
+        elif closed:
+            m, c = closed[0]
+            col.bad(rule, det.qualname, m.loc(c), "the detached copy has all columns",
+                    f"`{norm_src(c)[:90]}` (reached from {C.name}.detach) builds the detached table from a fixed set of columns, not from `self.keys()`: per-node columns beyond the seven "
+                    f"standard ones (eswc fields, labels) are missing from the detached copy", stmt="allcols", definite=True)
+        else:
+            m, c = calls[0]
+            col.unresolved(rule, det.qualname, m.loc(c), "the detached copy has all columns", f"`{norm_src(c)[:80]}`: where the columns come from is not recognised", stmt="allcols")
